@@ -112,9 +112,42 @@ def run(ctx):
                          fp.const_value(fp.N(atom)['ch'][1]) == 0 and ((fp.N(atom)['op'] == '!=' and pol is False) or (fp.N(atom)['op'] == '==' and pol is True)))
     succ = q.nonfalse_returns(fp)
     ctx.check(bool(succ) and all(fp.only_through(r, g_len) and fp.only_through(r, g_eq) for r in succ), R2, 'is_file_prefix:length-and-bytes', 'prefix accepted without the length test and the byte comparison', fp.where)
-    # the boundary test: a longer `full` must continue with a separator
-    sep = [i for i in fp.calls() if (fp.callee(i) or '').endswith('is_directory_separator')]
-    ctx.check(len(sep) >= 2, R2, 'is_file_prefix:component-boundary', 'prefix test does not require a directory boundary (/rootx would match /root)', fp.where)
+    # the boundary test: success only if the prefix is empty, ends with a separator, is the whole of `full`
+    # (decided by linear implication: the guard taken must force full.size() == prefix.size()), or `full` continues with a separator
+    from vlib import lin as _lin
+    SY = _lin.Symb(fp)
+    psz_var = None
+    for i in fp.all_nodes():
+        if fp.N(i)['k'] == 'DeclStmt':
+            for d in fp.N(i)['decls']:
+                if d.get('init') is not None and any(q.short_of(fp.callee(j)) == 'size' and fp.ref_of(fp.obj(j)) == pre for j in fp.calls(d['init'])):
+                    psz_var = d['ref']
+    PS = _lin.Lin.atom(psz_var) if psz_var else _lin.Lin.atom(pre + '.size()')
+    FS = _lin.Lin.atom(full + '.size()')
+
+    def boundary(atom, pol):
+        n = fp.N(atom)
+        if n['k'] in model.CALL_KINDS and (fp.callee(atom) or '').endswith('is_directory_separator'):
+            refs = fp.subtree_refs(atom)
+            if pre in refs and pol is True:       # prefix[prefix_size-1] is a separator
+                return True
+            if full in refs and pol is True:      # full[prefix_size] is a separator
+                idx = [j for j in fp.walk(atom) if fp.N(j)['k'] == 'CXXOperatorCallExpr' and fp.N(j).get('op') == '[]']
+                return bool(idx) and (SY.lin(fp.N(idx[0])['ch'][2]) - PS).is_const() and (SY.lin(fp.N(idx[0])['ch'][2]) - PS).c == 0
+            return False
+        if n['k'] == 'BinaryOperator' and n.get('op') in ('==', '<', '<=', '>', '>=', '!='):
+            cons = SY.rel(atom, pol)
+            if not cons:
+                return False
+            cons = [(k, _subst(e, fp, full, FS)) for (k, e) in cons]
+            if _lin.implies(cons + [_lin.ge(PS)], _lin.eq(PS)):           # prefix_size == 0
+                return True
+            # with the length test already passed (full.size() >= prefix_size) the guard forces equality
+            return _lin.implies(cons + [_lin.ge(FS - PS)], _lin.eq(FS - PS))
+        return False
+    g_b = fp.gate_edges(boundary)
+    ctx.check(bool(succ) and all(fp.only_through(r, g_b) for r in succ), R2, 'is_file_prefix:component-boundary',
+              'prefix accepted although the next character of the longer path is not a separator (/rootx or /root~ would match /root)', fp.where)
     if len(mc) == 1:
         ln = fp.args(mc[0])[2]
         lv = fp.ref_of(ln)
@@ -221,6 +254,18 @@ def run(ctx):
     ctx.floor(R4, 3)
     ctx.floor(R5, 5)
     ctx.assume('canonicalize_file_name / realpath resolve symlinks as POSIX specifies')
+
+
+def _subst(e, f, full, FS):
+    """rename the atom of `full.size()` to the canonical one"""
+    from vlib import lin as _lin
+    out = _lin.Lin({}, e.c)
+    for a, v in e.t.items():
+        if a == full + '.size()':
+            out = out + FS.scale(v)
+        else:
+            out = out + _lin.Lin.atom(a).scale(v)
+    return out
 
 
 def _def_or_self(f, x):
